@@ -19,6 +19,8 @@ def run(rep):
     rep.guard(d4, rep, w)
     import c11
     rep.guard(c11.i4, rep, w)    # the text of a number is an interned string: a look-up that takes equal hash for equal text hands `String.from(b)` the text of another number
+    import c05
+    rep.guard(c05.e5, rep, w)    # an interpolated number is rendered by FormatString from the value the expression produced (not from the literal's text at compile time)
 
 
 def arm_blocks(f, variant):
